@@ -29,6 +29,7 @@ import (
 
 	"cosmossdk.io/log"
 	"cosmossdk.io/math"
+	"cosmossdk.io/store/prefix"
 	"cosmossdk.io/x/feegrant"
 	wasmvmtypes "github.com/CosmWasm/wasmvm/v2/types"
 	codectypes "github.com/cosmos/cosmos-sdk/codec/types"
@@ -228,6 +229,19 @@ func newEnv(es envSpec) (*env, error) {
 	e.ante = palomamodule.NewVerifyAuthorisedSignatureDecorator(e.grants)
 	e.am = schedmodule.NewAppModule(f.Codec, e.k, nil, nil)
 	return e, nil
+}
+
+// rawJobs: the job records as they lie in the module's store (raw key without the "jobs" prefix -> raw bytes),
+// read past every keeper function (a lookup cache, a canonicalising getter ... cannot colour this view).
+func (e *env) rawJobs(ctx sdk.Context) map[string]string {
+	out := map[string]string{}
+	st := prefix.NewStore(e.k.Store(ctx), []byte("jobs"))
+	it := st.Iterator(nil, nil)
+	defer it.Close()
+	for ; it.Valid(); it.Next() {
+		out[string(it.Key())] = string(it.Value())
+	}
+	return out
 }
 
 // fakeGrants: the fee-grant keeper as far as the ante decorator uses it (AllowancesByGranter).
@@ -695,7 +709,55 @@ func runHistory(run *emit.Run, hs *histSpec, tag string) (res *histResult, fatal
 	}
 	checkQueues(seen, "after setup")
 
+	// the whole job-record key space after every operation: nothing that was there may change or go, and the
+	// only record that may appear is the one of the job this operation created
+	rawPrev := e.rawJobs(e.ctx)
+	justCreated := ""
+	hasCreated := false
+	probeIDs := map[string]bool{}
 	checkJobs := func(when string) {
+		now := e.rawJobs(e.ctx)
+		for k, v := range rawPrev {
+			nv, ok := now[k]
+			switch {
+			case !ok:
+				violate("C17:job-record-removed", fmt.Sprintf("the stored record of job %q is gone %s", k, when))
+			case nv != v:
+				violate("C17:job-record-changed", fmt.Sprintf("the stored record of job %q changed %s (%d -> %d bytes)", k, when, len(v), len(nv)))
+			}
+		}
+		for k, v := range now {
+			if _, ok := rawPrev[k]; ok {
+				continue
+			}
+			var j schedtypes.Job
+			if uerr := j.Unmarshal([]byte(v)); uerr != nil || j.ID != k || !hasCreated || k != justCreated {
+				violate("C17:phantom-job-record", fmt.Sprintf("a record appeared under job key %q %s that is not the job created by this operation (%d bytes, decodes: %v)", k, when, len(v), uerr == nil))
+			}
+		}
+		rawPrev = now
+		justCreated, hasCreated = "", false
+		// every lookup agrees with the store
+		for k := range now {
+			probeIDs[k] = true
+		}
+		for id := range probeIDs {
+			j, gerr := e.k.GetJob(e.ctx, id)
+			raw, there := now[id]
+			switch {
+			case there && (gerr != nil || j == nil):
+				violate("C17:lookup-differs-from-store", fmt.Sprintf("job %q is stored but GetJob fails %s: %v", id, when, gerr))
+			case !there && gerr == nil && j != nil:
+				violate("C17:lookup-differs-from-store", fmt.Sprintf("GetJob finds a job %q that is not in the store %s", id, when))
+			case there:
+				if bz, _ := j.Marshal(); string(bz) != raw {
+					violate("C17:lookup-differs-from-store", fmt.Sprintf("GetJob(%q) differs from the stored record %s", id, when))
+				}
+			}
+			if e.k.JobIDExists(e.ctx, id) != there {
+				violate("C17:lookup-differs-from-store", fmt.Sprintf("JobIDExists(%q) = %v, stored: %v %s", id, !there, there, when))
+			}
+		}
 		for id, c := range jobs {
 			j, err := e.k.GetJob(e.ctx, id)
 			if err != nil || j == nil {
@@ -762,6 +824,54 @@ func runHistory(run *emit.Run, hs *histSpec, tag string) (res *histResult, fatal
 			checkQueues(after, when)
 			checkJobs(when)
 			run.Count("op", fmt.Sprintf("resnap listeners=%v aged=%v", op.Listeners, op.Age))
+			continue
+
+		case "simulate":
+			// a branch of the state that is thrown away (a simulated transaction, the first messages of a transaction whose
+			// last message fails, a reverted sub-message): a job is created there under an id, looked up and run -- nothing
+			// of it may be visible afterwards, in the store or through any lookup
+			js := op.Job
+			owner := unhex(op.Creator)
+			probeIDs[js.ID] = true
+			bctx, _ := e.ctx.CacheContext()
+			var serr, rerr error
+			func() {
+				defer func() {
+					if r := recover(); r != nil {
+						serr = fmt.Errorf("panic: %v", r)
+					}
+				}()
+				switch op.Path {
+				case "msg":
+					e.ensureAccount(bctx, owner)
+					md, _ := e.metadata(owner, &opSpec{})
+					_, serr = e.ms.CreateJob(bctx, &schedtypes.MsgCreateJob{Job: e.mkJob(js, nil), Metadata: md})
+				case "wasm":
+					cm, _ := json.Marshal(libwasm.CustomMessage{Scheduler: &bindingstypes.Message{CreateJob: &bindingstypes.CreateJob{Job: &bindingstypes.Job{
+						JobId: js.ID, ChainType: js.CType, ChainReferenceId: js.CRef, Definition: js.Def, Payload: js.Payload, PayloadModifiable: js.Mod, IsMEV: js.Mev}}}})
+					_, _, _, serr = e.router.DispatchMsg(bctx, sdk.AccAddress(owner), "", wasmvmtypes.CosmosMsg{Custom: cm})
+				default:
+					serr = e.k.AddNewJob(bctx, e.mkJob(js, owner))
+				}
+				_, _ = e.k.GetJob(bctx, js.ID)
+				_ = e.k.JobIDExists(bctx, js.ID)
+				_, rerr = e.k.ExecuteJob(bctx, js.ID, nil, owner, nil)
+				if rerr != nil && js.Mod {
+					_, rerr = e.k.ExecuteJob(bctx, js.ID, []byte(`{"hexPayload":"0x01"}`), owner, nil)
+				}
+			}()
+			run.Count("simulate", fmt.Sprintf("created=%v ran=%v id-taken-in-committed-state=%v", serr == nil, serr == nil && rerr == nil, func() bool { _, ok := jobs[js.ID]; return ok }()))
+			// the branch is dropped here
+			after, err := e.readQueues(e.ctx)
+			if err != nil {
+				return nil, err
+			}
+			if _, pos, added := diff(seen, after); len(pos) > 0 || len(added) > 0 {
+				violate("C17:discarded-branch-leaked", fmt.Sprintf("a discarded branch left %d queue messages and removed %d", len(added), len(pos)))
+			}
+			seen = after
+			checkQueues(after, when)
+			checkJobs(when)
 			continue
 
 		case "block":
@@ -832,12 +942,19 @@ func runHistory(run *emit.Run, hs *histSpec, tag string) (res *histResult, fatal
 			_, pos, added := diff(seen, after)
 			steps = append(steps, fmt.Sprintf("(OGenesisRoundTrip, Ok, %s, %s, %s)", coqPos(pos), itemsTerm(added), idsTerm()))
 			seen = after
+			for k, v := range e.rawJobs(e.ctx) {
+				if old, ok := rawPrev[k]; !ok || old != v {
+					violate("C17:genesis-import-created", fmt.Sprintf("job record %q after the import was not there (or differs from what was there) before the export", k))
+				}
+			}
+			rawPrev = e.rawJobs(e.ctx)
 			run.Count("genesis-round-trip", fmt.Sprintf("jobs-before=%d lost=%d", len(keys), lost))
 			continue
 
 		case "create":
 			js := op.Job
 			owner := unhex(op.Creator)
+			probeIDs[js.ID] = true
 			noteDef([]byte(js.Def))
 			notePay([]byte(js.Payload))
 			vb := e.mkJob(js, owner).ValidateBasic() == nil
@@ -904,6 +1021,7 @@ func runHistory(run *emit.Run, hs *histSpec, tag string) (res *histResult, fatal
 					}
 					bz, _ := j.Marshal()
 					if !existed {
+						justCreated, hasCreated = js.ID, true
 						var jd jsonDef
 						_ = json.Unmarshal([]byte(js.Def), &jd)
 						jobs[js.ID] = &created{spec: *js, owner: owner, stored: bz, defAddr: jd.Address, defABI: jd.ABI, order: len(order)}
@@ -925,6 +1043,7 @@ func runHistory(run *emit.Run, hs *histSpec, tag string) (res *histResult, fatal
 
 		case "exec":
 			sender, contract := unhex(op.Sender), unhex(op.Contract)
+			probeIDs[op.ID] = true
 			var in []byte
 			if !op.InNil {
 				in = []byte(op.In)
@@ -1049,10 +1168,10 @@ func runHistory(run *emit.Run, hs *histSpec, tag string) (res *histResult, fatal
 				case "wasm":
 					// the contract's custom message, as JSON, through the libwasm router; its body names a sender of its own choice
 					cm, _ := json.Marshal(libwasm.CustomMessage{Scheduler: &bindingstypes.Message{ExecuteJob: &bindingstypes.ExecuteJob{JobID: op.ID, Sender: op.Claimed, Payload: in}}})
-					_, _, _, xerr = e.router.DispatchMsg(octx, sdk.AccAddress(contract), "", wasmvmtypes.CosmosMsg{Custom: cm})
 					suppliedJSON = wrapJSON(in)
 					effSender, effContract = contract, contract
 					opTerm = fmt.Sprintf("(OWasmExec %s %s %s %s %s %s %s)", cs(op.ID), cb(in), cb(contract), cs(op.Claimed), preT, pickT, emit.Bool(op.Atomic))
+					_, _, _, xerr = e.router.DispatchMsg(octx, sdk.AccAddress(contract), "", wasmvmtypes.CosmosMsg{Custom: cm})
 				case "legacy":
 					body := map[string]any{"job_id": op.ID, "payload": in}
 					if op.Claimed != "" {
@@ -1060,10 +1179,10 @@ func runHistory(run *emit.Run, hs *histSpec, tag string) (res *histResult, fatal
 						body["contract"] = op.Claimed
 					}
 					lj, _ := json.Marshal(body)
-					_, _, _, xerr = e.router.DispatchMsg(octx, sdk.AccAddress(contract), "", wasmvmtypes.CosmosMsg{Custom: lj})
 					suppliedJSON = wrapJSON(in)
 					effSender, effContract = contract, contract
 					opTerm = fmt.Sprintf("(OLegacyExec %s %s %s %s %s %s %s)", cs(op.ID), cb(in), cb(contract), cs(op.Claimed), preT, pickT, emit.Bool(op.Atomic))
+					_, _, _, xerr = e.router.DispatchMsg(octx, sdk.AccAddress(contract), "", wasmvmtypes.CosmosMsg{Custom: lj})
 				default:
 					var s, c sdk.AccAddress
 					if !op.SNil {
@@ -1078,11 +1197,11 @@ func runHistory(run *emit.Run, hs *histSpec, tag string) (res *histResult, fatal
 							c = sdk.AccAddress{}
 						}
 					}
-					msgID, xerr = e.k.ExecuteJob(octx, op.ID, in, s, c)
-					haveID = xerr == nil
 					suppliedJSON, suppliedNil = in, in == nil
 					effSender, effContract, sNil, cNil = sender, contract, op.SNil, op.CNil
 					opTerm = fmt.Sprintf("(OExec (mkExec %s %s %s %s %s %s %s))", cs(op.ID), cob(in, in == nil), cob(sender, op.SNil), cob(contract, op.CNil), preT, pickT, emit.Bool(op.Atomic))
+					msgID, xerr = e.k.ExecuteJob(octx, op.ID, in, s, c)
+					haveID = xerr == nil
 				}
 			}()
 			if op.Atomic && xerr == nil {
@@ -1399,6 +1518,48 @@ func genHistory(r *rand.Rand, hostile bool) *histSpec {
 			return "\u00a0" + id // no-break space
 		}
 	}
+	// ids built from other ids and from the module's own key vocabulary: "<id>" next to "-runs-<id>", "s-runs-<id>",
+	// prefixes / extensions of existing ids, the store prefixes themselves, ids of one character
+	words := []string{"runs", "run", "count", "meta", "owner", "idx", "ids", "n", "port"}
+	craftID := func(base string) string {
+		w := words[r.Intn(len(words))]
+		if r.Intn(3) == 0 {
+			w = "runs"
+		}
+		switch r.Intn(16) {
+		case 0, 1, 2:
+			return "-" + w + "-" + base
+		case 3:
+			return "s-" + w + "-" + base
+		case 4:
+			return "-" + w + base
+		case 5:
+			if len(base) > 1 {
+				return base[:len(base)-1]
+			}
+			return base + base
+		case 6:
+			return base + "0"
+		case 7:
+			return base + "-"
+		case 8:
+			return "-" + base
+		case 9:
+			return "s" + base
+		case 10:
+			return "jobs" + base
+		case 11:
+			return "generated-ids-" + base
+		case 12:
+			return "scheduler-port-" + base
+		case 13:
+			return []string{"-", "_", ".", "0", "s", "--", "jobs", "-runs-"}[r.Intn(8)]
+		case 14:
+			return base + "-" + w
+		default:
+			return base + "-" + w + "-" + base
+		}
+	}
 	// what a contract's message says about its sender
 	claim := func(contract []byte) string {
 		switch r.Intn(8) {
@@ -1428,6 +1589,7 @@ func genHistory(r *rand.Rand, hostile bool) *histSpec {
 	}
 	var made []madeJob
 	used := map[string]bool{}
+	forceID := "" // the id of the next create, when a pattern wants a particular one
 	genCreate := func(fresh bool) {
 		id := ids[r.Intn(5)]
 		if fresh && !hostile {
@@ -1440,6 +1602,16 @@ func genHistory(r *rand.Rand, hostile bool) *histSpec {
 		}
 		if len(made) > 0 && (r.Intn(12) == 0 || hostile && r.Intn(4) == 0) {
 			id = nearMiss(made[r.Intn(len(made))].id)
+		}
+		if r.Intn(7) == 0 || hostile && r.Intn(4) == 0 {
+			base := ids[r.Intn(5)]
+			if len(made) > 0 && r.Intn(3) != 0 {
+				base = made[r.Intn(len(made))].id
+			}
+			id = craftID(base)
+		}
+		if forceID != "" {
+			id, forceID = forceID, ""
 		}
 		js := &jobSpec{ID: id, CType: "evm", CRef: chainRefs[r.Intn(2)], Def: pick(defPool, nGoodDef), Payload: pick(payPool, nGoodPay), Mod: r.Intn(5) < 3}
 		switch r.Intn(24) {
@@ -1570,7 +1742,54 @@ func genHistory(r *rand.Rand, hostile bool) *histSpec {
 			// the module's genesis is exported and imported: every job is gone afterwards
 			hs.Ops = append(hs.Ops, opSpec{Kind: "genesis"})
 			made, used = nil, map[string]bool{}
-		case k < 18 && len(made) > 0:
+		case k < 16 && len(made) > 0:
+			// a shadow id: "-<word>-<id>" is created (by whoever) before <id> runs; then both run
+			x := made[r.Intn(len(made))]
+			w := words[r.Intn(len(words))]
+			if r.Intn(2) == 0 {
+				w = "runs"
+			}
+			shadow := "-" + w + "-" + x.id
+			if len(shadow) <= 32 {
+				forceID = shadow
+				genCreate(false)
+				for _, id := range []string{x.id, shadow, x.id} {
+					genExec()
+					o := &hs.Ops[len(hs.Ops)-1]
+					o.ID = id
+					if o.Path == "wasm" || o.Path == "legacy" {
+						if o.In == "" {
+							o.In = "\x01"
+						}
+					}
+				}
+			}
+		case k < 19:
+			// a job created, looked up and run under an id on a branch that is discarded; then the id is created for
+			// real with other content by somebody else, and run
+			id := ids[r.Intn(5)]
+			if len(made) > 0 && r.Intn(4) == 0 {
+				id = made[r.Intn(len(made))].id
+			}
+			prior := used[id]
+			forceID = id
+			genCreate(false)
+			sim := hs.Ops[len(hs.Ops)-1]
+			sim.Kind = "simulate"
+			sim.Signer, sim.Granted, sim.ClaimedOwner = "", false, ""
+			hs.Ops[len(hs.Ops)-1] = sim
+			// genCreate booked the id as made: undo that, the branch is dropped
+			if n := len(made); n > 0 && made[n-1].id == id && !prior {
+				made = made[:n-1]
+				delete(used, id)
+			}
+			if r.Intn(4) != 0 {
+				forceID = id
+				genCreate(false)
+				genExec()
+				hs.Ops[len(hs.Ops)-1].ID = id
+			}
+		case k < 21 && len(made) > 0:
 			// valset churn: a run, a new snapshot, the same run again -- the second hook replaces the update of the first
 			genExec()
 			x := hs.Ops[len(hs.Ops)-1]
@@ -1622,6 +1841,9 @@ func TestCorr(t *testing.T) {
 		"resnap (new snapshot, announced by the snapshot listener or not yet announced => just-in-time valset update replacing the queued one), block (the module's Begin/EndBlock), genesis (ExportGenesis, emptied store, InitGenesis through the AppModule). " +
 		"Transaction messages pass ValidateBasic and the VerifyAuthorisedSignatureDecorator first (signed by the creator | by another account with / without a fee grant of the creator; a creator without account); " +
 		"contract messages go as JSON through the libwasm router and name a sender of their own choice (absent | junk | own address | another contract | an account); " +
+		"simulate (a job created, looked up and run on a branch that is discarded, then the same id created for real with other content by somebody else and run); " +
+		"job ids built from other ids and the module's key vocabulary (-runs-<id>, s-runs-<id>, -<word>-<id> created before <id> runs, prefixes / extensions of ids, jobs<id>, generated-ids-<id>, one-character ids); " +
+		"after every operation the raw job-record key space of the store is diffed (nothing may change or go; only the job created by this operation may appear) and every lookup is compared with the store; " +
 		"job ids of creates and lookups include near misses of existing ids (other case, blanks, tab, newline, zero-width and no-break space, full-width first character). 1 history in 6 is drawn from the hostile pools only. " +
 		"non-trivial = at least one accepted and one rejected request. Plus unit cases for injectSenderIntoPayload, common.FromHex and the binding's wrapping.")
 	search := os.Getenv("VERIF_SEARCH") == "1"
